@@ -92,7 +92,7 @@ JUNK_TEXTS = ['', ' ', '{', '[', '}', 'nul', '{"jsonrpc": "2.0", "method": "echo
               '{"jsonrpc": "2.0", "method": "echo", "id": 01}', '--1', '0x10', '{"id": 1}}', 'undefined']
 
 
-def gen_document(ch: Choices, max_len: int = 5, allow_junk: bool = True) -> Dict[str, Any]:
+def gen_document(ch: Choices, max_len: int = 5, allow_junk: bool = True, tok_prefix: str = '') -> Dict[str, Any]:
     """A request text plus a description.  {'text', 'shape', 'kinds', 'doc'}"""
     shape = ['single', 'batch', 'junk_text', 'nonobject', 'empty_batch'][
         ch.weighted([5, 8, 1 if allow_junk else 0, 1 if allow_junk else 0, 1 if allow_junk else 0], 'doc.shape')]
@@ -110,7 +110,7 @@ def gen_document(ch: Choices, max_len: int = 5, allow_junk: bool = True) -> Dict
     all_notif = shape == 'batch' and ch.flag(1, 8, 'doc.all_notifications')
     for k in range(n):
         notification = all_notif or ch.flag(1, 4, 'el.notification')
-        el, kind = gen_element(ch, f't{k}', ids[k], notification)
+        el, kind = gen_element(ch, f'{tok_prefix}t{k}', ids[k], notification)
         els.append(el)
         kinds.append(kind + ('.n' if 'id' not in el or el.get('id') is None else ''))
     if shape == 'batch' and n >= 2 and ch.flag(1, 6, 'doc.dup_id'):
@@ -453,13 +453,13 @@ def check_no_leak(w: World, prop: str, body: Optional[str], ctx: Dict[str, Any])
             return
 
 
-def plan_pauses(w: World, cfg: Dict[str, Any], n_elements: int, rate: int = 2) -> None:
+def plan_pauses(w: World, cfg: Dict[str, Any], n_elements: int, rate: int = 2, tok_prefix: str = '') -> None:
     """Pre-draw the suspension points of the asynchronous callees (methods, middlewares, error handlers)."""
     if not cfg['async']:
         return
     ch = w.ch
     for k in range(n_elements):
-        tok = f't{k}'
+        tok = f'{tok_prefix}t{k}'
         w.plan[('method', tok)] = [ch.choice(gen.PAUSES, 'pause.d') for _ in range(ch.draw(rate + 1, 'pause.n'))]
         for i in range(len(cfg['middlewares'])):
             w.plan[('mw', i, tok)] = [ch.choice(gen.PAUSES, 'pause.d') for _ in range(ch.draw(rate, 'pause.mw'))]
